@@ -187,7 +187,8 @@ def handleLoc04 (l : Line) : List Verdict :=
     let embOrigins ← l.charsList? "embeddedorigins"
     let origins := allowed.filterMap originOf
     let v1 := judge mode emitter basescheme origins domain "Location" loc false
-    let v2 := if hasEmb && emb ≠ [] then judge mode (emitter ++ ".embedded") basescheme (embOrigins.filterMap originOf) domain
+    -- an embedded redirect that IS one of the operator-configured URLs, character for character (the fallback the cleaners substitute), is the operator's choice
+    let v2 := if hasEmb && emb ≠ [] && !(allowed.contains emb) then judge mode (emitter ++ ".embedded") basescheme (embOrigins.filterMap originOf) domain
                   s!"redirect parameter handed on by {sh basehost} in" emb (mode == "sso-proxy") else []
     pure (verdictsOf [] (v1 ++ v2))
   r.getD [Verdict.bad "loc04"]
